@@ -1,6 +1,7 @@
 CONSTANTS Urls <- UrlsC
           Texts <- TextsC
           Cfgs <- CfgsC
+          ForgetIdentRecord = TRUE
           ConfigRebuilds = TRUE
           MaxMsgs = 5
           MaxInFlight = 3
